@@ -41,9 +41,18 @@ impl E {
         }
     }
 }
+/// fault injection: -1 = off; k >= 0: the (k+1)-th element clone from now panics (once)
+static FAULT_IN: AtomicI64 = AtomicI64::new(-1);
 impl Clone for E {
     fn clone(&self) -> E {
         self.check();
+        let k = FAULT_IN.load(Ordering::SeqCst);
+        if k == 0 {
+            FAULT_IN.store(-1, Ordering::SeqCst);
+            panic!("injected: element clone fails");
+        } else if k > 0 {
+            FAULT_IN.store(k - 1, Ordering::SeqCst);
+        }
         CLONES.fetch_add(1, Ordering::SeqCst);
         E::new(self.id)
     }
@@ -118,6 +127,9 @@ fn on_other_thread(f: Box<dyn FnOnce() + Send>) {
 trait Dom: 'static {
     type T: cow::Cowable + ?Sized + Hash + Ord + Send + Sync + 'static;
     const NAME: &'static str;
+    /// operations per pool slot: 5, or 7 when the element type can fail while it is cloned (fault-injected variants of
+    /// into_owned and clone)
+    const PER_SLOT: usize = 5;
     fn statik() -> &'static Self::T;
     fn owned(len: usize, cap: usize) -> <Self::T as ToOwned>::Owned;
     fn shared() -> Arc<Self::T>;
@@ -168,6 +180,7 @@ struct SliceDom;
 impl Dom for SliceDom {
     type T = [E];
     const NAME: &'static str = "[E]";
+    const PER_SLOT: usize = 7;
     fn statik() -> &'static [E] {
         static S: std::sync::OnceLock<&'static [E]> = std::sync::OnceLock::new();
         S.get_or_init(|| Box::leak(vec![E { magic: MAGIC, id: 7 }, E { magic: MAGIC, id: 8 }].into_boxed_slice()))
@@ -216,8 +229,8 @@ struct Slot<D: Dom> {
 const N_CONSTRUCT: usize = 11;
 const POOL: usize = 3;
 // op encoding: 0..N_CONSTRUCT construct; then for slot i in 0..POOL: clone, check, into_owned, drop, thread_drop; then pair ops
-fn n_ops() -> usize {
-    N_CONSTRUCT + POOL * 5 + 3
+fn n_ops<D: Dom>() -> usize {
+    N_CONSTRUCT + POOL * D::PER_SLOT + 3
 }
 
 fn run_seq<D: Dom>(seq: &[usize]) -> Result<Option<usize>, (String, String, usize)> {
@@ -273,9 +286,9 @@ fn run_seq<D: Dom>(seq: &[usize]) -> Result<Option<usize>, (String, String, usiz
             };
             let model = D::content(&cow);
             pool[free] = Some(Slot { cow, model, arc });
-        } else if op < N_CONSTRUCT + POOL * 5 {
-            let i = (op - N_CONSTRUCT) / 5;
-            let what = (op - N_CONSTRUCT) % 5;
+        } else if op < N_CONSTRUCT + POOL * D::PER_SLOT {
+            let i = (op - N_CONSTRUCT) / D::PER_SLOT;
+            let what = (op - N_CONSTRUCT) % D::PER_SLOT;
             if pool[i].is_none() {
                 result = Ok(Some(step));
                 break 'steps;
@@ -330,6 +343,39 @@ fn run_seq<D: Dom>(seq: &[usize]) -> Result<Option<usize>, (String, String, usiz
                     }
                     drop(s.cow);
                 }
+                5 => {
+                    // into_owned while the second element clone it makes (if it makes any) panics: whether it returns
+                    // or unwinds, the value is consumed and its reference / elements are given back exactly once
+                    let s = pool[i].take().unwrap();
+                    if let Some(a) = s.arc {
+                        arc_refs[a] -= 1;
+                    }
+                    let Slot { cow, model, .. } = s;
+                    FAULT_IN.store(1, Ordering::SeqCst);
+                    let r = std::panic::catch_unwind(std::panic::AssertUnwindSafe(|| cow.into_owned()));
+                    FAULT_IN.store(-1, Ordering::SeqCst);
+                    if let Ok(o) = r {
+                        if D::owned_content(&o) != model {
+                            result = fail("into-owned-content-wrong", format!("{} into_owned gives {:?}, expected {:?}", D::NAME, D::owned_content(&o), model));
+                            break 'steps;
+                        }
+                        drop(o);
+                    }
+                }
+                6 => {
+                    // clone while the second element clone it makes (if any) panics: the original stays intact
+                    let s = pool[i].as_ref().unwrap();
+                    FAULT_IN.store(1, Ordering::SeqCst);
+                    let r = std::panic::catch_unwind(std::panic::AssertUnwindSafe(|| s.cow.clone()));
+                    FAULT_IN.store(-1, Ordering::SeqCst);
+                    if let Ok(c) = r {
+                        if D::content(&c) != s.model {
+                            result = fail("content-differs-from-what-it-was-built-from", "clone differs".into());
+                            break 'steps;
+                        }
+                        drop(c);
+                    }
+                }
                 _ => {
                     let s = pool[i].take().unwrap();
                     if let Some(a) = s.arc {
@@ -350,7 +396,7 @@ fn run_seq<D: Dom>(seq: &[usize]) -> Result<Option<usize>, (String, String, usiz
             }
         } else {
             // pair ops over (0,1), (0,2), (1,2): ==, cmp, hash against the model
-            let (a, b) = [(0, 1), (0, 2), (1, 2)][op - N_CONSTRUCT - POOL * 5];
+            let (a, b) = [(0, 1), (0, 2), (1, 2)][op - N_CONSTRUCT - POOL * D::PER_SLOT];
             let (sa, sb) = match (pool[a].as_ref(), pool[b].as_ref()) {
                 (Some(x), Some(y)) => (x, y),
                 _ => {
@@ -467,7 +513,7 @@ fn cow_part<D: Dom>(ctx: &Ctx, res: &mut PartResult, depth: usize, first: Option
         res.executions = 1;
     } else {
         let d = if first.is_some() { depth - 1 } else { depth };
-        let (n, complete) = vseq::for_each_seq(n_ops(), d, &mut run, &|| ctx.over_budget());
+        let (n, complete) = vseq::for_each_seq(n_ops::<D>(), d, &mut run, &|| ctx.over_budget());
         res.executions = n;
         res.exhaustive = complete;
         if !complete {
@@ -477,11 +523,11 @@ fn cow_part<D: Dom>(ctx: &Ctx, res: &mut PartResult, depth: usize, first: Option
     res.transitions = transitions;
     res.states = states.len();
     res.distinct_outcomes = states.len();
-    res.bound = json!({"depth": depth, "alphabet": n_ops(), "pool": POOL, "domain": D::NAME, "first_op_fixed": first});
+    res.bound = json!({"depth": depth, "alphabet": n_ops::<D>(), "pool": POOL, "domain": D::NAME, "first_op_fixed": first});
     for (sig, msg, seq) in fails {
         res.violation(&sig, msg, json!({"seq": seq}));
     }
-    res.sample(json!({"domain": D::NAME, "ops": "construct(shared + outside Arc), clone(0), into_owned(0), thread_drop(1)", "encoding": "0-10 construct variants (static, owned with/without spare capacity, std Cow conversions, shared Arc with/without outside references, Default, borrowed prefix of the static); then per slot: clone, check, into_owned, drop, drop-on-other-thread; then pairwise ==/cmp/hash"}));
+    res.sample(json!({"domain": D::NAME, "ops": "construct(shared + outside Arc), clone(0), into_owned(0), thread_drop(1)", "encoding": "0-10 construct variants (static, owned with/without spare capacity, std Cow conversions, shared Arc with/without outside references, Default, borrowed prefix of the static); then per slot: clone, check, into_owned, drop, drop-on-other-thread, and for [E] into_owned / clone while the second element clone panics; then pairwise ==/cmp/hash"}));
 }
 
 /// the same code through the metrics crate's public API: SharedString, Label, Key
@@ -652,7 +698,7 @@ fn main() {
     driver::main(CheckDef {
         prop: "C14",
         level: "model_checking",
-        rule: "every sequence of the stated depth (first operation = each of the 11 constructions) over: construct {borrowed, From<&T>, Default, a borrowed proper prefix of the static (same address, shorter; for str through std Cow::Borrowed), owned with (len,cap) in (0,0),(0,8),(3,3),(3,16) incl. through the std Cow / Vec conversions, shared Arc alone, shared Arc with an outside strong reference, with an outside strong + weak reference}, and per pool slot (3 slots) clone, read back (deref, as_ref), into_owned, drop, move-to-another-thread-read-and-drop, plus pairwise ==/cmp/hash; for Cow<str> and for Cow<[E]> with a drop-, clone- and corruption-detecting element type, on the repository's cow.rs compiled into the harness; after every step contents equal the model and Arc strong counts equal the model; at the end every element instance is dropped exactly once and the tracking allocator (no block reuse, poison on free, recorded double/invalid frees) is back to its baseline; plus sequences through the public SharedString/Label/Key API; distinct = distinct (allocations, frees, prune point) profiles",
+        rule: "every sequence of the stated depth (first operation = each of the 11 constructions) over: construct {borrowed, From<&T>, Default, a borrowed proper prefix of the static (same address, shorter; for str through std Cow::Borrowed), owned with (len,cap) in (0,0),(0,8),(3,3),(3,16) incl. through the std Cow / Vec conversions, shared Arc alone, shared Arc with an outside strong reference, with an outside strong + weak reference}, and per pool slot (3 slots) clone, read back (deref, as_ref), into_owned, drop, move-to-another-thread-read-and-drop, and for [E] into_owned and clone while the second element clone they make panics (fault injected, caught), plus pairwise ==/cmp/hash; for Cow<str> and for Cow<[E]> with a drop-, clone- and corruption-detecting element type, on the repository's cow.rs compiled into the harness; after every step contents equal the model and Arc strong counts equal the model; at the end every element instance is dropped exactly once and the tracking allocator (no block reuse, poison on free, recorded double/invalid frees) is back to its baseline; plus sequences through the public SharedString/Label/Key API; distinct = distinct (allocations, frees, prune point) profiles",
         assumptions: &["cow.rs is self-contained, so compiling the same source file into the harness exercises the code the metrics crate compiles", "Send/Sync bound soundness is a type-level claim outside this technique", "From<Cow<T>> for std::borrow::Cow<T> exists only for sized T and cannot be instantiated for str or slices"],
         parts,
         run,
